@@ -676,7 +676,7 @@ def run_shard(spec, ctx):
     else:
         gran = "opcode" if ctx.index % 2 else "line"
         for r in range(10):
-            core.hyp_shard(conc_cases(5, gran), check_case, ctx, 6000, rec=rec, tag="conc%d" % r)
+            core.hyp_shard(conc_cases(5, gran), check_case, ctx, 8000, rec=rec, tag="conc%d" % r)
             if rec.violations:
                 break
     return rec
